@@ -50,7 +50,16 @@ pub fn may_keep_auth(policy: RedirectAuthHeaders, original: &UriRef, target: &Ur
 pub fn redirect_response(hop: &Hop) -> Vec<u8> {
     let mut h = RespHead::new(false, hop.status);
     h.fields.push(Field::new("Server", b"t"));
-    for l in &hop.locations {
+    // (with several Location fields, every other response says Connection: close in front of them and carries
+    // some other field between them: neither has a say in which Location counts)
+    let mixed = hop.locations.len() > 1 && hop.locations[0].len() % 2 == 0;
+    if mixed {
+        h.fields.push(Field::new("Connection", b"close"));
+    }
+    for (i, l) in hop.locations.iter().enumerate() {
+        if mixed && i == 1 {
+            h.fields.push(Field::new("Vary", b"*"));
+        }
         h.fields.push(Field::new("Location", l));
     }
     let mut v;
